@@ -53,8 +53,10 @@ def drivers(tier):
     # part 3 (c13h.cpp = #include "c13.cpp") = ALL compositions on the hip/sycl route (attributes through array::as_static)
     import hashlib
     h = hashlib.sha256(open(os.path.join(os.path.dirname(__file__), "..", "..", "drivers", "c13.cpp"), "rb").read()).hexdigest()[:10]
-    return {"c13": [("c13.cpp", "ndebug", ()), ("c13.cpp", "asan", ("-DVD_LIGHT",))],
-            "c13b": [("c13.cpp", "debug", ("-DC13_PART=2",)), ("c13h.cpp", "ndebug", ("-DC13_SRC_HASH=0x" + h,))]}
+    # element type of the leaves per build (C13_ELEM: 1 = int64, 2 = int32, 3 = int16, 4 = float64); a case line is answered by
+    # the builds of its dtype tag only
+    return {"c13": [("c13.cpp", "ndebug", ()), ("c13.cpp", "asan", ("-DVD_LIGHT", "-DC13_ELEM=3"))],
+            "c13b": [("c13.cpp", "debug", ("-DC13_PART=2", "-DC13_ELEM=2")), ("c13h.cpp", "ndebug", ("-DC13_ELEM=4", "-DC13_SRC_HASH=0x" + h))]}
 
 
 # ---------------------------------------------------------------- tiny reference evaluator (independent of nmtools)
@@ -123,10 +125,13 @@ def roll_ax(a, shift, ax):
     n = a[0][ax]
     return gen(a[0], lambda i: at(a, i[:ax] + ((i[ax] - shift) % n,) + i[ax + 1:]))
 def cumsum_ax(a, ax): return gen(a[0], lambda i: sum(at(a, i[:ax] + (j,) + i[ax + 1:]) for j in range(i[ax] + 1)))
+def sum_axis_init(a, ax, init):          # reducer_t: initial op x0 op x1 ... (left fold; matters for float64)
+    sh = a[0][:ax] + a[0][ax + 1:]
+    return gen(sh, lambda i: sum((at(a, i[:ax] + (j,) + i[ax:]) for j in range(a[0][ax])), init))
 def sum_keep(a, ax, init):
-    r = sum_axis(a, ax); return (a[0][:ax] + (1,) + a[0][ax + 1:], [x + init for x in r[1]])
+    r = sum_axis_init(a, ax, init); return (a[0][:ax] + (1,) + a[0][ax + 1:], r[1])
 def Q(p): return p / 4.0
-def ints(a): assert all(float(x) == int(x) for x in a[1]); return (a[0], [int(x) for x in a[1]])
+def ints(a): return a        # (results are compared bit for bit as float64 now)
 COMPS2 = {   # comp -> (reference(a, b, params), parameter kind)
     "lrelu":         lambda a, b, P: ints(lrelu(a, Q(P[0]))),
     "htanh":         lambda a, b, P: ints(htanh(a, Q(P[0]), Q(P[1]))),
@@ -138,7 +143,7 @@ COMPS2 = {   # comp -> (reference(a, b, params), parameter kind)
     "neg_tr_lrelu":  lambda a, b, P: ints(neg(transpose(lrelu(a, Q(P[0]))))),
     "htanh_tr_add":  lambda a, b, P: ints(htanh(transpose(ew(lambda x, y: x + y, a, b)), Q(P[0]), Q(P[1]))),
     "sshrink_lrelu": lambda a, b, P: ints(sshrink(lrelu(a, Q(P[0])), Q(P[1]))),
-    "sum_ax_init":   lambda a, b, P: (lambda r: (r[0], [x + P[1] for x in r[1]]))(sum_axis(a, P[0])),
+    "sum_ax_init":   lambda a, b, P: sum_axis_init(a, P[0], P[1]),
     "expd":          lambda a, b, P: expand_dims(a, P),
     "neg_expd":      lambda a, b, P: neg(expand_dims(a, P)),
     "expd_tr":       lambda a, b, P: expand_dims(transpose(a), P),
@@ -162,9 +167,9 @@ ACT = {"lrelu": 1, "hshrink": 1, "lrelu_add": 1, "add_lrelu": 1, "neg_tr_lrelu":
        "htanh": 2, "sum_htanh": 2, "htanh_tr_add": 2, "sshrink": 3, "sshrink_lrelu": 4}         # clamp pair / integral lambda
 
 
-def case2(rng, comp):
+def case2(rng, comp, dt):
     """-> (a, b, params) for a part-2 composition"""
-    def act_arr(sh): return (tuple(sh), [4 * rng.choice([-9, -6, -5, -3, -2, -1, 1, 2, 3, 5, 7, 10]) for _ in range(size(sh))])
+    def act_arr(sh): return (tuple(sh), rand_vals(rng, size(sh), "f64", comp))     # negatives, values inside and far outside every clamp range
     def shape(lo, hi, cap=36):
         while True:
             sh = tuple(rng.randint(2, 5) if rng.random() < 0.8 else 1 for _ in range(rng.randint(lo, hi)))
@@ -184,7 +189,7 @@ def case2(rng, comp):
         import itertools as it
         sh = tuple(rng.sample([2, 3, 4, 5], 3)) if rng.random() < 0.7 else tuple(rng.sample([1, 2, 3, 2], 4))
         while size(sh) > 40: sh = tuple(max(1, e - 1) for e in sh)
-        a = rand_arr(rng, sh); d = len(sh)
+        a = rand_arr(rng, sh, dt, comp); d = len(sh)
         if comp in ("tr_ax", "neg_tr_ax", "sum_tr_ax"):      # a permutation that is neither the identity nor the full reversal
             perms = [p for p in it.permutations(range(d)) if list(p) != list(range(d)) and list(p) != list(range(d))[::-1]]
             P = list(rng.choice(perms))
@@ -205,17 +210,17 @@ def case2(rng, comp):
             while len(f) < 3: f.insert(rng.randint(0, len(f)), 1)
             P = f
         else:   # bto_p
-            src = tuple(e if rng.random() < 0.5 else 1 for e in sh); a = rand_arr(rng, src)
+            src = tuple(e if rng.random() < 0.5 else 1 for e in sh); a = rand_arr(rng, src, dt, comp)
             P = list(sh) if rng.random() < 0.5 else [2] + list(sh)
             while size(P) > 64: P[0] = 1
         return a, a, P
     if comp == "sum_ax_init":
-        sh = shape(2, 4); a = rand_arr(rng, sh)
+        sh = shape(2, 4); a = rand_arr(rng, sh, dt, comp)
         return a, a, [rng.randrange(len(sh)), rng.choice([-7, 0, 3, 100])]
     # rank-raising views: operand rank 1..4, output rank mostly 5..8 (the static_vector capacity of create_vector)
     if comp in ("expd", "neg_expd", "expd_tr"):
         sh = shape(1, 4); k = rng.randint(max(1, 5 - len(sh)), 8 - len(sh)) if rng.random() < 0.85 else 1
-        return rand_arr(rng, sh), rand_arr(rng, sh), sorted(rng.sample(range(len(sh) + k), k))
+        return rand_arr(rng, sh, dt, comp), rand_arr(rng, sh, dt, comp), sorted(rng.sample(range(len(sh) + k), k))
     if comp == "reshape_hi":
         sh = rng.choice([(2, 3, 4), (6, 5), (24,), (2, 3, 5), (4, 3, 2, 2), (30,), (2, 2, 7)])
         f = []
@@ -226,7 +231,7 @@ def case2(rng, comp):
         while len(f) > 2 and rng.random() < 0.4: x = f.pop(); f[rng.randrange(len(f))] *= x
         n = rng.randint(max(5, len(f)), 8)
         while len(f) < n: f.insert(rng.randint(0, len(f)), 1)
-        return rand_arr(rng, sh), rand_arr(rng, sh), f
+        return rand_arr(rng, sh, dt, comp), rand_arr(rng, sh, dt, comp), f
     if comp == "bto_hi":
         sh = tuple(rng.choice([1, 1, 2, 3]) for _ in range(rng.randint(1, 4)))
         tgt = [e if e > 1 else rng.choice([1, 2, 3]) for e in sh]
@@ -234,13 +239,13 @@ def case2(rng, comp):
         while len(tgt) < n: tgt.insert(0, rng.choice([1, 2, 2, 3]))
         while size(tgt) > 64: tgt[rng.randrange(len(tgt))] = 1
         tgt[len(tgt) - len(sh):] = [t if s == 1 else s for s, t in zip(sh, tgt[len(tgt) - len(sh):])]
-        return rand_arr(rng, sh), rand_arr(rng, sh), tgt
+        return rand_arr(rng, sh, dt, comp), rand_arr(rng, sh, dt, comp), tgt
     if comp == "tile_hi":
         sh = tuple(rng.randint(1, 3) for _ in range(rng.randint(1, 4)))
         while size(sh) > 12: sh = sh[1:]
         reps = [rng.choice([1, 1, 2, 3]) for _ in range(rng.randint(5, 8))]
         while size(reps) * size(sh) > 72: reps[rng.randrange(len(reps))] = 1
-        return rand_arr(rng, sh), rand_arr(rng, sh), reps
+        return rand_arr(rng, sh, dt, comp), rand_arr(rng, sh, dt, comp), reps
     raise KeyError(comp)
 
 
@@ -251,7 +256,39 @@ def A(a): return "A:%s:%s" % (",".join(map(str, a[0])), ",".join(map(str, a[1]))
 def L(v): return "L:" + ",".join(str(x) for x in v)
 
 
-def rand_arr(rng, sh): return (tuple(sh), [rng.randint(-5, 20) for _ in range(size(sh))])
+import struct
+def f2b(x): return struct.unpack("<q", struct.pack("<d", float(x)))[0]
+def Aw(a, dt): return A((a[0], [f2b(x) for x in a[1]])) if dt == "f64" else A(a)
+
+MUL = {"sum_mul", "mm_tr_l", "sum_tr_mul", "mm_tr_r"}
+ADD = {"add", "neg_tr_add", "sub_tr_l"}
+SUMS = {"cumsum_p", "sum_keep", "sum_ax_init", "sum_tr_ax"}
+NEG = {"neg_expd", "neg_tr_ax"}
+F64_POOL = [0.1, 0.2, 0.3, -0.7, 1.0 / 3.0, -2.0 / 3.0, 1.0 + 2.0 ** -40, -(1.0 + 2.0 ** -45), 16777217.0, -16777219.0, 33554433.0,
+            1e-3, 123456789.123, 25000000001.0, 1e15 + 1.0, 2.0 ** 53 - 1.0, 5e-324 * 3, 1.7976931348623157e308 / 4]
+def rand_vals(rng, n, dt, comp):
+    """element values that are NOT exactly representable in binary32 and whose host result is still exact in the element type"""
+    def pick(pool): return [rng.choice(pool) * rng.choice([1, -1]) for _ in range(n)]
+    if dt == "f64":
+        pool = F64_POOL[:12] if comp in MUL or comp in SUMS or comp in ADD else F64_POOL
+        return [rng.choice(pool) if rng.random() < 0.6 else rng.choice([k for k in range(-50, 51) if k]) * 0.1 + rng.choice([0, 16777216.0]) for _ in range(n)]
+    if dt == "i64":
+        if comp in MUL: return [rng.choice([-1, 1]) * rng.randint(3000, 6000) | 1 for _ in range(n)]
+        top = 2 ** 62 if not (comp in ADD or comp in SUMS) else (2 ** 61 if comp in ADD else 2 ** 56)
+        return pick([2 ** 53 + 1, 2 ** 53 + 3, top - 1, top - 3, 2 ** 24 + 1, 2 ** 31 + 1, 9007199254740993, 2 ** 40 + 7, 123456789012345679])
+    if dt == "i32":
+        if comp in SUMS: return pick([2 ** 24 + 1, 2 ** 25 + 3, 16777219, 33554435, 2 ** 24 + 7])
+        if comp in ADD: return pick([2 ** 30 - 1, 2 ** 24 + 1, 2 ** 29 + 3, 16777217])
+        return pick([2 ** 31 - 1, 2 ** 31 - 3, 2 ** 24 + 1, 16777219, 2 ** 30 + 1]) if comp in NEG else \
+               [rng.choice([2 ** 31 - 1, -2 ** 31, 2 ** 24 + 1, -16777219, 2 ** 30 + 1, -(2 ** 31 - 3)]) for _ in range(n)]
+    if dt == "i16":
+        # products and their sums stay int16 in nmtools (matmul / reduce keep the element type): keep them inside the range
+        if comp in MUL: return [rng.choice([-1, 1]) * rng.randint(30, 50) for _ in range(n)]
+        return [rng.choice([32767, -32768, 32765, -32767, 255, -129, 16385]) for _ in range(n)]
+    raise KeyError(dt)
+def rand_arr(rng, sh, dt="i64", comp=""):
+    if dt == "i64" and comp == "": return (tuple(sh), [rng.randint(-5, 20) for _ in range(size(sh))])
+    return (tuple(sh), rand_vals(rng, size(sh), dt, comp))
 
 
 def shapes_for(rng, comp):
@@ -305,41 +342,44 @@ def gen_cases(rng, tier):
         for kind in KINDS:
             for _ in range(reps):
                 sa, sb = shapes_for(rng, comp)
-                a, b = rand_arr(rng, sa), rand_arr(rng, sb)
+                style = rng.choice(["cuda", "cuda", "ocl", "cudaN", "hip", "hip"])      # hip = the hip/sycl route (part 3)
+                dt = "f64" if style == "hip" else rng.choice(["i64", "i64", "i16"])       # element type: see drivers()
+                a, b = rand_arr(rng, sa, dt, comp), rand_arr(rng, sb, dt, comp)
                 r = COMPS[comp](a, b)
                 n = size(r[0])
                 bsz, th = schedule(rng, n, kind)
                 if not th: continue
-                style = rng.choice(["cuda", "cuda", "ocl", "cudaN", "hip", "hip"])      # hip = the hip/sycl route (part 3)
-                if style == "cudaN" and len(r[0]) > 2: style = "cuda"
+                if style == "cudaN" and (len(r[0]) > 2 or dt == "i16"): style = "cuda"
                 add("schedules-" + kind if comp not in NONWF else "inherited-findings",
-                    "kern S:%s S:%s %s %s %s I:%d %s %s" % (comp, style, A(a), A(b), A(r), bsz, L([t for t, _ in th]), L([b_ for _, b_ in th])),
+                    "kern S:%s S:%s %s %s %s I:%d %s %s L: S:%s" % (comp, style, Aw(a, dt), Aw(b, dt), Aw(r, dt), bsz,
+                                                                 L([t for t, _ in th]), L([b_ for _, b_ in th]), dt),
                     "c13b" if style == "hip" else "c13")
     # part 2: run-time attributes and high-rank outputs, same schedule sweeps
     per2 = 2 if tier == "quick" else 12
     for comp in COMPS2:
         for kind in KINDS:
             for _ in range(per2):
-                a, b, P = case2(rng, comp)
+                style = rng.choice(["cuda", "ocl", "hip"])
+                dt = "f64" if (style == "hip" or comp in ACT) else "i32"
+                a, b, P = case2(rng, comp, dt)
                 r = COMPS2[comp](a, b, P)
                 n = size(r[0])
                 bsz, th = schedule(rng, n, kind)
                 if not th: continue
-                style = rng.choice(["cuda", "ocl", "hip"])
                 stream = ("attributes-" if comp in ACT or comp == "sum_ax_init" or comp in RANK3 else "rank-%d-" % len(r[0]) if len(r[0]) >= 5 else "rank-low-") + kind
                 add(stream + ("-hip" if style == "hip" else ""),
-                    "kern S:%s S:%s %s %s %s I:%d %s %s %s" % (comp, style, A(a), A(b), A(r), bsz,
-                                                               L([t for t, _ in th]), L([b_ for _, b_ in th]), L(P)), "c13b")
+                    "kern S:%s S:%s %s %s %s I:%d %s %s %s S:%s" % (comp, style, Aw(a, dt), Aw(b, dt), Aw(r, dt), bsz,
+                                                                  L([t for t, _ in th]), L([b_ for _, b_ in th]), L(P), dt), "c13b")
     # boundary: size exactly a multiple of the block, block larger than the output, block size 1
     for comp in ("add", "tr", "neg_tr_add"):
         for n, bsz in ((4, 4), (4, 2), (6, 33), (6, 1), (9, 3), (1, 1), (1, 7)):
             sh = {1: (1,), 4: (2, 2), 6: (2, 3), 9: (3, 3)}[n]
-            a, b = rand_arr(rng, sh), rand_arr(rng, sh); r = COMPS[comp](a, b)
+            a, b = rand_arr(rng, sh, "i64", comp), rand_arr(rng, sh, "i64", comp); r = COMPS[comp](a, b)
             grid = -(-n // bsz)
             for g in (grid, grid + 1):
                 th = [(t, b_) for b_ in range(g) for t in range(bsz)]
                 for order in (th, th[::-1]):
-                    add("boundary", "kern S:%s S:cuda %s %s %s I:%d %s %s" % (comp, A(a), A(b), A(r), bsz, L([t for t, _ in order]), L([b_ for _, b_ in order])))
+                    add("boundary", "kern S:%s S:cuda %s %s %s I:%d %s %s L: S:i64" % (comp, A(a), A(b), A(r), bsz, L([t for t, _ in order]), L([b_ for _, b_ in order])))
     maxe = 3 if tier == "quick" else 4
     for d in range(1, 5):
         for sh in itertools.product(range(1, maxe + 1), repeat=d):
